@@ -290,14 +290,6 @@ theorem inv_populate (e : Env) (s : State) (b : Body) (hi : Inv s) : Inv (popula
         rw [hl] at this
         cases okk <;> exact this
 
-def resetStep (e : Env) (acc : State × Bool) (p : ProxyRec) : State × Bool :=
-  if !acc.2 then acc else
-  let cur := (acc.1.find p.name).getD p
-  if cur.enabled then (acc.1.replace { cur with toxics := [] }, true)
-  else match startProxy e acc.1 cur with
-    | some p' => (acc.1.replace { p' with toxics := [] }, true)
-    | none => (acc.1, false)
-
 theorem inv_resetStep (e : Env) (acc : State × Bool) (p : ProxyRec) (h : Inv acc.1) : Inv (resetStep e acc p).1 := by
   unfold resetStep
   by_cases h1 : (!acc.2) = true
@@ -318,7 +310,7 @@ theorem inv_reset (e : Env) (s : State) (hi : Inv s) : Inv (reset e s).1 := by
     | nil => intro acc h; exact h
     | cons p l ih => intro acc h; exact ih _ (inv_resetStep e acc p h)
   have hr : (reset e s).1 = (s.foldl (resetStep e) (s, true)).1 := by
-    unfold reset resetStep
+    unfold reset
     simp only
     split <;> rfl
   rw [hr]
